@@ -7,6 +7,7 @@ and `Float`). Helper lemmas: `Proofs/C13.lean`, `Proofs/C13Maps.lean`, `Proofs/C
 import Mahotas.Proofs.C13
 import Mahotas.Proofs.C13Maps
 import Mahotas.Proofs.C13Regions
+import Mahotas.Proofs.C13BBox
 open Mahotas Mahotas.C13
 
 /-- **C13-T1 (fold_eq, generic).** For every value type, operation `f`, identity `start`, number of
@@ -173,6 +174,26 @@ theorem C13_bbox_generic_tight (shape : List Nat) (data : List Int) (hlen : data
     (∀ p ∈ ps, ext.getD (2 * j) 0 ≤ p.getD j 0 ∧ p.getD j 0 + 1 ≤ ext.getD (2 * j + 1) 0) ∧
     (ps ≠ [] → (∃ p ∈ ps, p.getD j 0 = ext.getD (2 * j) 0) ∧ (∃ p ∈ ps, p.getD j 0 + 1 = ext.getD (2 * j + 1) 0)) :=
   bbox_tight shape data hlen j hj
+
+/-- **C13-T2 (bbox: empty image / returned box).** For an image of rank ≥ 1 that fills its shape, the model
+of `bbox` returns all zeros when no pixel is non-zero and otherwise exactly the box left by the loop (which is
+tight by `C13_bbox_generic_tight`). -/
+theorem C13_bbox_result (shape : List Nat) (data : List Int) (hlen : data.length = shapeSize shape)
+    (hnd : 0 < shape.length) :
+    let ps := ((List.range data.length).filter fun i => data.getD i 0 ≠ 0).map (unravelI shape)
+    let ext := (List.range data.length).foldl (fun ext i =>
+      if data.getD i 0 ≠ 0 then bboxUpdate ext (unravelI shape i) else ext) (bboxInit shape)
+    (ps = [] → bboxGeneric shape data = (bboxInit shape).map (fun _ => 0)) ∧
+    (ps ≠ [] → bboxGeneric shape data = ext) :=
+  bboxGeneric_cases shape data hlen hnd
+
+/-- **C13-T2 (bbox_fast_eq_generic).** For every `N0 × N1` C-contiguous image the model of `carray2_bbox` —
+row scan with the skip-ahead `x += extrema[3] - x - 1` to the known right edge — returns the same four
+numbers as the generic loop: the skipped pixels lie inside the box already known (invariant `Box`/`Att`:
+every seen non-zero pixel is inside the box and every bound is initial or attained). -/
+theorem C13_bbox_fast_eq_generic (N0 N1 : Nat) (data : List Int) (hlen : data.length = N0 * N1) :
+    bboxFast N0 N1 data = bboxGeneric [N0, N1] data :=
+  bboxFast_eq_generic N0 N1 data hlen
 
 /-! non-vacuity and the pinned defect in miniature: an identity that is *not* a lower bound of the data
     (as `numeric_limits<double>::min()`, the smallest positive value, is not) breaks `labeled_max`;
